@@ -16,7 +16,7 @@ from ..parser_exceptions import (
     ParserVariableException,
 )
 
-from architecture_simulator.isa.parser import Parser
+from architecture_simulator.isa.parser import Parser, convertible_int_literal
 
 if TYPE_CHECKING:
     from architecture_simulator.isa.riscv.instruction_types import RiscvInstruction
@@ -114,13 +114,17 @@ class RiscvParser(Parser):
                 | pp.Word(pp.nums)
             )
         )
-    )
+    ).add_condition(convertible_int_literal(0))
 
     _pattern_offset = pp.Optional(
         _PLUS + pp.Combine("0x" + pp.Word(pp.hexnums))("offset")
     )
 
-    _pattern_index = pp.Combine(_Bracket_L + pp.Word(pp.nums) + _Bracket_R)
+    _pattern_index = pp.Combine(
+        _Bracket_L
+        + pp.Word(pp.nums).add_condition(convertible_int_literal(10))
+        + _Bracket_R
+    )
 
     _pattern_variable = pp.Combine(
         _pattern_label("name") + pp.Optional(_pattern_index)("index")
@@ -144,7 +148,7 @@ class RiscvParser(Parser):
         _pattern_label("name")
         + _D_COL
         + pp.Group(_DOT + pp.Literal("zero")("type"))("type")
-        + pp.Word(pp.nums)("value")
+        + pp.Word(pp.nums).add_condition(convertible_int_literal(10))("value")
     )
 
     # R-Types
